@@ -16,6 +16,8 @@ import (
 	"github.com/DistCompiler/pgo/distsys/resources"
 	"github.com/DistCompiler/pgo/distsys/tla"
 	"github.com/dgraph-io/badger/v3"
+
+	"verif/harness/hx"
 )
 
 func decodeState(b []byte) (string, error) {
@@ -319,11 +321,7 @@ func NewShared(persistent bool) Instance {
 	s := &Shared{c: newCell("sh-init"), persistent: persistent, persisted: "<none>"}
 	s.mgr = resources.NewLocalSharedManager(tla.MakeString("sh-init"), resources.WithLocalSharedResourceTimeout(20*time.Millisecond))
 	if persistent {
-		db, err := badger.Open(badger.DefaultOptions("").WithInMemory(true).WithLogger(nil))
-		if err != nil {
-			panic(err)
-		}
-		s.db = db
+		s.db = hx.MemBadger()
 	}
 	return s
 }
